@@ -35,6 +35,11 @@ BROKEN = [
     "S: A1 B;\nA1: Tb A+;\nA: Ta;\nB: Ta;\nterminals\nTa: 'a';\nTb: 'b';\n", "S: A+ A1;\nA1: Tb;\nA: Ta;\nterminals\nTa: 'a';\nTb: 'b';\n",
     "S: A STOP*;\nterminals\nA: 'a';\n", "S: A+[STOP];\nterminals\nA: 'a';\n", "S: A {kind: 'x y'};\nterminals\nA: 'a';\n", "S: A {fn};\nterminals\nA: 'a';\n",
     "S: EMPTY | Tb | S S;\nterminals\nTb: 'b';\n", "S: A S | EMPTY;\nA: EMPTY | Tb;\nterminals\nTb: 'b';\n",
+    "@vec\nItems: Items Item | Item | None;\nItem: Num;\nterminals\nNum: /\\d+/;\nNone: 'none';\n",
+    "@vec\nItems: Item Items | Item | EMPTY;\nItem: Num;\nterminals\nNum: /\\d+/;\n",
+    "@vec\nItems: Items Comma Item | Item | Semi;\nItem: Num | Id;\nterminals\nNum: /\\d+/;\nId: /[a-z]+/;\nComma: ',';\nSemi: ';';\n",
+    "@vec\nS: S A | A | Kw Kw;\nA: Ta;\nterminals\nTa: /a/;\nKw: 'k';\n", "@vec\nS: A;\nA: Ta;\nterminals\nTa: /a/;\n",
+    "@vec\nS: S S | Ta;\nterminals\nTa: /a/;\n", "@vec\nS: Ta S Tb | Ta;\nterminals\nTa: /a/;\nTb: /b/;\n",
     "S: A;\nterminals\nA: '';\n", "S: A;\nterminals\nA: //;\n", "S: A B;\nterminals\nA: 'a';\nB: 'a';\n",
 ]
 
